@@ -165,6 +165,7 @@ Proof.
 Qed.
 
 Lemma input_loop_sound (ci : cty -> cv -> option cv) (kvs : list (nat * cv)) :
+  (forall t v, ci t v = Some CNil -> v = CNil) ->
   NoDup (map fst kvs) -> wf_kvs kvs ->
   forall fs m,
     NoDup (map fst fs) -> wf_fields fs ->
@@ -174,13 +175,13 @@ Lemma input_loop_sound (ci : cty -> cv -> option cv) (kvs : list (nat * cv)) :
     (forall k, In k (map fst m) -> In k (map fst fs)) /\
     (forall f, In f fs ->
        match lookupc (fst f) m with
-       | Some w' => conforms (fst (snd f)) w' = true \/ snd (snd f) <> None
+       | Some w' => conforms (fst (snd f)) w' = true /\ (snd (snd f) <> None -> w' <> CNil)
        | None => is_nn (fst (snd f)) = false /\ snd (snd f) = None
        end) /\
     (forall k x, In (k, x) kvs -> x <> CNil -> In k (map fst fs) ->
        exists y, lookupc k m = Some y /\ denotes x y = true).
 Proof.
-  intros Hkn Hkv. induction fs as [|f r IHr]; intros m Hnd' Hwfs Hall Hg.
+  intros Hcinil Hkn Hkv. induction fs as [|f r IHr]; intros m Hnd' Hwfs Hall Hg.
   - simpl in Hg. inversion Hg; subst m. simpl. repeat split; try tauto.
   - simpl in Hg. destruct (input_loop ci kvs r) as [m'|] eqn:Er; [|discriminate].
     inversion Hnd' as [|? ? Hnf Hnr]; subst. inversion Hall as [|? ? Hf Hr]; subst.
@@ -190,7 +191,7 @@ Proof.
     assert (Hcase : exists entry : option cv,
                m = match entry with Some e => (fst f, e) :: m' | None => m' end /\
                match entry with
-               | Some e => (conforms (fst (snd f)) e = true \/ snd (snd f) <> None) /\
+               | Some e => (conforms (fst (snd f)) e = true /\ (snd (snd f) <> None -> e <> CNil)) /\
                            (forall x, lookupc (fst f) kvs = Some x -> x <> CNil -> denotes x e = true)
                | None => is_nn (fst (snd f)) = false /\ snd (snd f) = None /\
                          (forall x, lookupc (fst f) kvs = Some x -> x = CNil)
@@ -199,20 +200,21 @@ Proof.
       - destruct (is_cnil ov) eqn:Eo.
         + destruct ov; try discriminate.
           destruct (snd (snd f)) as [d|] eqn:Ed.
-          * inversion Hg; subst. exists (Some d). split; auto. split; [right; discriminate|].
+          * inversion Hg; subst. exists (Some d). split; auto. split; [split; [tauto|intros _; tauto]|].
             intros x Hx Hn. inversion Hx; subst. congruence.
           * destruct (is_nn (fst (snd f))) eqn:En; [discriminate|]. inversion Hg; subst.
             exists (Some CNil). split; auto. split.
-            -- left. now apply conforms_nil.
+            -- split; [now apply conforms_nil|congruence].
             -- intros x Hx Hn. inversion Hx; subst. congruence.
         + destruct (ci (fst (snd f)) ov) as [w0|] eqn:Ec; [|discriminate]. inversion Hg; subst.
           exists (Some w0). split; auto.
           assert (Hwov : wf_cv ov).
           { apply (wf_kvs_In kvs (fst f) ov Hkv). now apply lookupc_In. }
-          destruct (Hf Hwf_f ov w0 Hwov Ec) as [C D]. split; auto.
+          destruct (Hf Hwf_f ov w0 Hwov Ec) as [C D]. split.
+          { split; [exact C|]. intros _ Hw0. subst w0. apply Hcinil in Ec. subst ov. discriminate. }
           intros x Hx Hn. inversion Hx; subst. exact D.
       - destruct (snd (snd f)) as [d|] eqn:Ed.
-        + inversion Hg; subst. exists (Some d). split; auto. split; [right; discriminate|].
+        + inversion Hg; subst. exists (Some d). split; auto. split; [split; [tauto|intros _; tauto]|].
           intros x Hx. discriminate.
         + destruct (is_nn (fst (snd f))) eqn:En; [discriminate|]. inversion Hg; subst.
           exists None. split; auto. repeat split; auto. intros x Hx. discriminate. }
@@ -255,7 +257,7 @@ Proof.
     simpl in Hwf. destruct Hwf as [Hnd Hwf]. simpl in Hv. destruct Hv as [Hkn Hkv].
     destruct (input_loop coerce_input kvs fields) as [m|] eqn:Eg; [|discriminate].
     simpl in Hc. inversion Hc; subst w. clear Hc.
-    destruct (input_loop_sound coerce_input kvs Hkn Hkv fields m Hnd Hwf H Eg) as [HK [HC HD]].
+    destruct (input_loop_sound coerce_input kvs coerce_input_nil Hkn Hkv fields m Hnd Hwf H Eg) as [HK [HC HD]].
     split.
     + (* conforms *)
       simpl. apply andb_true_iff. split.
@@ -268,14 +270,15 @@ Proof.
                | [] => true
                | f :: r =>
                    match lookupc (fst f) m with
-                   | Some w' => conforms (fst (snd f)) w' || match snd (snd f) with Some _ => true | None => false end
+                   | Some w' => conforms (fst (snd f)) w' && match snd (snd f) with Some _ => negb (is_cnil w') | None => true end
                    | None => negb (is_nn (fst (snd f))) && match snd (snd f) with Some _ => false | None => true end
                    end && go r
                end) fs = true).
         { induction fs as [|f r IH]; intros Hs; auto. apply andb_true_iff. split; [|apply IH; intros; apply Hs; now right].
           specialize (HC f (Hs f (or_introl eq_refl))).
           destruct (lookupc (fst f) m) as [w'|].
-          - destruct HC as [HC|HC]; [rewrite HC; auto|]. destruct (snd (snd f)); [apply orb_true_r|congruence].
+          - destruct HC as [HC HN]. rewrite HC. simpl. destruct (snd (snd f)); [|reflexivity].
+            destruct w'; try reflexivity. exfalso. apply HN; [discriminate|reflexivity].
           - destruct HC as [H1 H2]. rewrite H1, H2. reflexivity. }
         apply G. auto.
     + (* denotes *)
